@@ -119,6 +119,32 @@ def size_rules(R, prefix):
                 R.ok(prefix + '.SIZ.1b', inst, fl.loc(), f'loops over {la}')
             else:
                 R.fail(prefix + '.SIZ.1b', inst, qe, 'def encode_into', f'{cls}: encoded_length iterates {la} but encode_into iterates {lb} (or different element methods)', fe.loc())
+            if cls != 'InterestNameField':
+                # the element field caches what it measured under its *name* (markers[f'{name}##..']): the name given to it before each
+                # element is measured must be given again, by the same template, before that element is written
+                def naming(fn_, meth):
+                    out = {}
+                    for lp in [x for x in ast.walk(fn_) if isinstance(x, ast.For)]:
+                        cur = {}
+                        for st_ in lp.body:
+                            if isinstance(st_, ast.Assign) and len(st_.targets) == 1 and isinstance(st_.targets[0], ast.Attribute) and st_.targets[0].attr == 'name' \
+                                    and ast.unparse(st_.targets[0].value).startswith('self.'):
+                                cur[ast.unparse(st_.targets[0].value)] = ast.unparse(st_.value)
+                            for c_ in ast.walk(st_):
+                                if isinstance(c_, ast.Call) and callee_attr(c_) == meth and ast.unparse(c_.func.value).startswith('self.'):
+                                    out[ast.unparse(c_.func.value)] = cur.get(ast.unparse(c_.func.value))
+                    return out
+                na_, nb_ = naming(fl.node, 'encoded_length'), naming(fe.node, 'encode_into')
+                for sub_ in sorted(set(na_) | set(nb_)):
+                    inst2 = f'{TM}.{cls} :: {sub_} is named per element before it is measured and before it is written'
+                    if na_.get(sub_) is not None and na_.get(sub_) == nb_.get(sub_):
+                        R.ok(prefix + '.SIZ.1b', inst2, fl.loc(), na_[sub_])
+                    elif na_.get(sub_) is None and nb_.get(sub_) is None:
+                        R.ok(prefix + '.SIZ.1b', inst2, fl.loc(), 'no per-element name in either pass')
+                    else:
+                        R.fail(prefix + '.SIZ.1b', inst2, qe if nb_.get(sub_) is None else ql, 'def encode_into' if nb_.get(sub_) is None else 'def encoded_length',
+                               f'{cls}: {sub_} is measured under the name `{na_.get(sub_)}` but written under `{nb_.get(sub_)}`: the size cached for one element '
+                               '(e.g. the width of an integer key) is looked up for another, so the bytes written differ from the size announced', fe.loc())
 
 
 def stale_rule(R, prefix):
